@@ -1,0 +1,505 @@
+//go:build verif
+// +build verif
+
+// Verification hooks (build tag "verif").  This file only adds exported entry
+// points that call the package's unexported functions unchanged; no existing
+// line of the package is modified and without the tag the file does not exist
+// for the compiler.
+
+package cmd
+
+import (
+	"bytes"
+	"context"
+	"fmt"
+	"io/ioutil"
+	"math"
+	"os"
+	"path/filepath"
+	"sort"
+	"strings"
+	"time"
+
+	"github.com/knz/shakespeare/pkg/crdb/log"
+	"github.com/knz/shakespeare/pkg/crdb/stop"
+)
+
+// verifReporter is a reporter that records judgements and does nothing else.
+type verifReporter struct {
+	start    time.Time
+	judged   []string
+	narrated []string
+	min, max float64
+}
+
+func (r *verifReporter) epoch() time.Time { return r.start }
+func (r *verifReporter) expandTimeRange(t float64) {
+	if t < r.min {
+		r.min = t
+	}
+	if t > r.max {
+		r.max = t
+	}
+}
+func (r *verifReporter) getTimeRange() (float64, float64) { return r.min, r.max }
+func (r *verifReporter) narrate(_ urgency, _, f string, args ...interface{}) {
+	r.narrated = append(r.narrated, fmt.Sprintf(f, args...))
+}
+func (r *verifReporter) witness(_ context.Context, _ string, _ ...interface{}) {}
+func (r *verifReporter) judge(_ context.Context, _ urgency, _, f string, args ...interface{}) {
+	r.judged = append(r.judged, fmt.Sprintf(f, args...))
+}
+
+var _ reporter = (*verifReporter)(nil)
+
+// VerifLogScope redirects the log package to a temporary directory (the
+// secondary loggers need one); the returned function removes it.
+func VerifLogScope() func() {
+	sc := log.ScopeWithoutShowLogs(verifT{})
+	return func() { sc.Close(verifT{}) }
+}
+
+type verifT struct{}
+
+func (verifT) Fatal(args ...interface{})                 { panic(fmt.Sprint(args...)) }
+func (verifT) Fatalf(format string, args ...interface{}) { panic(fmt.Sprintf(format, args...)) }
+func (verifT) Errorf(format string, args ...interface{}) {}
+func (verifT) Error(args ...interface{})                 {}
+func (verifT) Failed() bool                              { return false }
+func (verifT) Logf(format string, args ...interface{})   {}
+func (verifT) Log(args ...interface{})                   {}
+func (verifT) Helper()                                   {}
+func (verifT) Name() string                              { return "verif" }
+
+// ---------------------------------------------------------------------------
+// C01: drive the real FSM evaluation + reporting code.
+
+// VerifModalities returns the modality names `expects` accepts.
+func VerifModalities() []string {
+	var r []string
+	for k := range automata {
+		r = append(r, k)
+	}
+	sort.Strings(r)
+	return r
+}
+
+// VerifFsmRun looks the modality up the way the parser does, creates a fresh
+// evaluator the way startOfAuditPeriod does, feeds the labels through the real
+// processFsmStateChange and returns the result code of every report.
+func VerifFsmRun(modality string, labels []string) (results []int, panicMsg string) {
+	defer func() {
+		if r := recover(); r != nil {
+			panicMsg = fmt.Sprintf("%v", r)
+		}
+	}()
+	f, err := parseAuditWhen(modality)
+	if err != nil {
+		return nil, "lookup: " + err.Error()
+	}
+	ctx := context.Background()
+	stopper := stop.NewStopper()
+	defer stopper.Stop(ctx)
+	collCh := make(chan collectorEvent, len(labels)+4)
+	rep := &verifReporter{start: time.Now()}
+	au := &audition{
+		r:       rep,
+		cfg:     newConfig(),
+		stopper: stopper,
+		logger:  log.NewSecondaryLogger(ctx, nil, "audit", true, false),
+		res:     &auditionResults{},
+		collCh:  collCh,
+	}
+	as := &auditorState{}
+	am := &auditor{expectFsm: f}
+	au.startOfAuditPeriod(ctx, "a", as, am)
+	for _, l := range labels {
+		ev := &auditionReport{ts: 0, auditor: "a", result: resErr}
+		if err := au.processFsmStateChange(ctx, "a", as, ev, l); err != nil {
+			return results, "error: " + err.Error()
+		}
+		select {
+		case cev := <-collCh:
+			results = append(results, int(cev.(*auditionReport).result))
+		default:
+			return results, "no report"
+		}
+	}
+	return results, ""
+}
+
+// ---------------------------------------------------------------------------
+// C06, C09, C10, C20: parse / print / compile.
+
+// VerifParseResult is what VerifParse observed.
+type VerifParseResult struct {
+	Printed  string // printCfg output (no comments, no version), if accepted
+	Steps    string // printSteps output
+	Err      string // rendered error text, if rejected
+	ErrShort string // err.Error()
+	Panic    string // recovered panic, if any
+}
+
+// VerifParse writes files into a fresh temporary directory, parses
+// main (searched in includePath entries, given relative to that directory; ""
+// is the directory itself) with the -D definitions, compiles, and prints.
+func VerifParse(files map[string]string, dirs []string, mainFile string, defines, includePath []string) (res VerifParseResult, cfgOut *VerifCfg) {
+	tmp, err := ioutil.TempDir("", "shk-verif-parse")
+	if err != nil {
+		panic(err)
+	}
+	defer os.RemoveAll(tmp)
+	for _, d := range dirs {
+		if err := os.MkdirAll(filepath.Join(tmp, d), 0755); err != nil {
+			panic(err)
+		}
+	}
+	for name, data := range files {
+		p := filepath.Join(tmp, name)
+		if err := os.MkdirAll(filepath.Dir(p), 0755); err != nil {
+			panic(err)
+		}
+		if err := ioutil.WriteFile(p, []byte(data), 0644); err != nil {
+			panic(err)
+		}
+	}
+	var ip []string
+	for _, p := range includePath {
+		ip = append(ip, filepath.Join(tmp, p))
+	}
+	func() {
+		defer func() {
+			if r := recover(); r != nil {
+				res.Panic = fmt.Sprintf("%v", r)
+			}
+		}()
+		ctx := context.Background()
+		cfg := newConfig()
+		cfg.defines = defines
+		cfg.includePath = ip
+		if err := cfg.parseDefines(); err != nil {
+			res.Err, res.ErrShort = verifRender(err, tmp), strings.ReplaceAll(err.Error(), tmp, "<tmp>")
+			return
+		}
+		rd, err := newReader(ctx, mainFile, ip)
+		if err != nil {
+			res.Err, res.ErrShort = verifRender(err, tmp), strings.ReplaceAll(err.Error(), tmp, "<tmp>")
+			return
+		}
+		defer rd.close()
+		if err := cfg.parseCfg(ctx, rd); err != nil {
+			res.Err, res.ErrShort = verifRender(err, tmp), strings.ReplaceAll(err.Error(), tmp, "<tmp>")
+			return
+		}
+		if err := cfg.compileV2(); err != nil {
+			res.Err, res.ErrShort = verifRender(err, tmp), strings.ReplaceAll(err.Error(), tmp, "<tmp>")
+			return
+		}
+		var b bytes.Buffer
+		cfg.printCfg(&b, true /*skipComments*/, true /*skipVer*/, false /*annot*/)
+		res.Printed = b.String()
+		b.Reset()
+		cfg.printSteps(&b, false)
+		res.Steps = b.String()
+		cfgOut = verifExportCfg(cfg)
+	}()
+	return res, cfgOut
+}
+
+func verifRender(err error, tmp string) string {
+	var b bytes.Buffer
+	RenderError(&b, err)
+	return strings.ReplaceAll(b.String(), tmp, "<tmp>")
+}
+
+// VerifCfg is the compiled play and the parts of the configuration the
+// properties talk about, exported as plain data.
+type VerifCfg struct {
+	TempoNs       int64
+	StoryLine     []string
+	RepeatActNum  int
+	RepeatCount   int
+	RepeatTimeout int64
+	Play          [][]VerifScene
+	Roles         []string
+	Actors        []VerifActor
+	Audience      []string
+}
+
+// VerifActor is one cast member.
+type VerifActor struct {
+	Name, Role, ExtraEnv string
+}
+
+// VerifScene is one compiled scene.
+type VerifScene struct {
+	WaitUntilNs int64
+	Lines       []VerifLine
+}
+
+// VerifLine is what one actor does in a scene.
+type VerifLine struct {
+	Actor string
+	Steps []VerifStep
+}
+
+// VerifStep is one step.
+type VerifStep struct {
+	Typ    int // 0 = do, 1 = ambiance
+	Action string
+	FailOk bool
+}
+
+func verifExportCfg(cfg *config) *VerifCfg {
+	out := &VerifCfg{
+		TempoNs:       int64(cfg.tempo),
+		StoryLine:     append([]string(nil), cfg.storyLine...),
+		RepeatActNum:  cfg.repeatActNum,
+		RepeatCount:   cfg.repeatCount,
+		RepeatTimeout: int64(cfg.repeatTimeout),
+		Roles:         append([]string(nil), cfg.roleNames...),
+		Audience:      append([]string(nil), cfg.audienceNames...),
+	}
+	for _, an := range cfg.actorNames {
+		a := cfg.actors[an]
+		out.Actors = append(out.Actors, VerifActor{Name: a.name, Role: a.role.name, ExtraEnv: a.extraEnv})
+	}
+	for _, act := range cfg.play {
+		var oa []VerifScene
+		for i := range act {
+			sc := &act[i]
+			os := VerifScene{WaitUntilNs: int64(sc.waitUntil)}
+			for _, l := range sc.concurrentLines {
+				ol := VerifLine{Actor: l.actor.name}
+				for _, s := range l.steps {
+					ol.Steps = append(ol.Steps, VerifStep{Typ: int(s.typ), Action: s.action, FailOk: s.failOk})
+				}
+				os.Lines = append(os.Lines, ol)
+			}
+			oa = append(oa, os)
+		}
+		out.Play = append(out.Play, oa)
+	}
+	return out
+}
+
+// VerifParseString parses a single in-memory text (no includes from disk),
+// compiles it and returns the configuration for the other hooks.
+func verifParseString(text string, defines []string) (*config, error) {
+	rd, err := newReaderFromString("<verif>", text)
+	if err != nil {
+		return nil, err
+	}
+	defer rd.close()
+	cfg := newConfig()
+	cfg.defines = defines
+	if err := cfg.parseDefines(); err != nil {
+		return nil, err
+	}
+	if err := cfg.parseCfg(context.Background(), rd); err != nil {
+		return nil, err
+	}
+	if err := cfg.compileV2(); err != nil {
+		return nil, err
+	}
+	return cfg, nil
+}
+
+// ---------------------------------------------------------------------------
+// C02, C03, C08, C11: drive the real audition round machine and collector.
+
+// VerifValue is one sample of a signal.
+type VerifValue struct {
+	Actor, Sig string
+	IsNum      bool
+	Num        float64
+	Str        string
+}
+
+// VerifEvent is one input of the audit loop.
+type VerifEvent struct {
+	Kind   string // "mood" | "sig" | "final"
+	Ts     float64
+	Mood   string
+	Values []VerifValue
+}
+
+// VerifOut is one output of the audition, in emission order.
+type VerifOut struct {
+	Round   int    // index of the input event that produced it (-1: the initial round)
+	Kind    string // "report" | "obs" | "judge"
+	Auditor string // report
+	Result  int    // report
+	Output  string // report
+	Var     string // obs: "actor sig" or "name"
+	Val     string // obs
+	Typ     int    // obs
+	Ts      float64
+	Text    string // judge
+}
+
+// VerifAuditionResult is everything VerifAudition observed.
+type VerifAuditionResult struct {
+	ParseErr    string
+	Outs        []VerifOut
+	AuditErr    string             // error returned by a round, if any (aborts the audition)
+	Vals        map[string]string  // final variable values, %v-formatted
+	Verdict     string             // checkAuditViolations error text ("" = nil)
+	EarlyExitAt int                // index in Outs of the report at which the collector asked to exit early (-1: never)
+	GoodCounts  map[string]int
+	BadCounts   map[string]int
+	Errors      int
+	HasData     map[string]bool
+	CSV         map[string]string // file name -> content, when collectDir is used
+	Panic       string
+}
+
+// VerifAudition parses cfgText, builds the real audition and collector around
+// in-memory channels, runs the initial round and then every event through the
+// real checkEvent / collectAndAuditMood / checkFinal, and feeds everything the
+// audition emits through the real collector functions.
+func VerifAudition(cfgText string, events []VerifEvent, earlyExit bool, writeCSV bool) (res VerifAuditionResult) {
+	res.EarlyExitAt = -1
+	defer func() {
+		if r := recover(); r != nil {
+			res.Panic = fmt.Sprintf("%v", r)
+		}
+	}()
+	cfg, err := verifParseString(cfgText, nil)
+	if err != nil {
+		res.ParseErr = err.Error()
+		return res
+	}
+	cfg.earlyExit = earlyExit
+	ctx := context.Background()
+	stopper := stop.NewStopper()
+	defer stopper.Stop(ctx)
+	tmp, err := ioutil.TempDir("", "shk-verif-aud")
+	if err != nil {
+		panic(err)
+	}
+	defer os.RemoveAll(tmp)
+	cfg.dataDir = tmp
+	if err := os.MkdirAll(filepath.Join(tmp, "csv"), 0755); err != nil {
+		panic(err)
+	}
+	collCh := make(chan collectorEvent, 65536)
+	rep := &verifReporter{start: time.Now(), min: math.Inf(1), max: math.Inf(-1)}
+	au := &audition{
+		r:       rep,
+		cfg:     cfg,
+		stopper: stopper,
+		logger:  log.NewSecondaryLogger(ctx, nil, "audit", true, false),
+		res:     &auditionResults{},
+		st:      makeAuditionState(cfg),
+		collCh:  collCh,
+	}
+	col := &collector{
+		r:       rep,
+		cfg:     cfg,
+		stopper: stopper,
+		st:      makeCollectorState(cfg),
+		logger:  log.NewSecondaryLogger(ctx, nil, "collector", true, false),
+	}
+	of := newOutputFiles()
+
+	stopped := false
+	drain := func(round int) {
+		nj := 0
+		for {
+			select {
+			case cev := <-collCh:
+				switch ev := cev.(type) {
+				case *auditionReport:
+					res.Outs = append(res.Outs, VerifOut{Round: round, Kind: "report", Auditor: ev.auditor,
+						Result: int(ev.result), Output: ev.output, Ts: ev.ts})
+					if !stopped {
+						early, err := col.collectAuditionReport(ctx, of, ev)
+						if err != nil {
+							res.AuditErr = "collector: " + err.Error()
+						}
+						if early {
+							stopped = true
+							res.EarlyExitAt = len(res.Outs) - 1
+						}
+					}
+				case *observation:
+					res.Outs = append(res.Outs, VerifOut{Round: round, Kind: "obs", Var: ev.varName.String(),
+						Val: ev.val, Typ: int(ev.typ), Ts: ev.ts})
+					if !stopped && writeCSV {
+						if err := col.collectObservation(ctx, of, ev); err != nil {
+							res.AuditErr = "collector: " + err.Error()
+						}
+					}
+				}
+				continue
+			default:
+			}
+			break
+		}
+		for ; nj < len(rep.judged); nj++ {
+			res.Outs = append(res.Outs, VerifOut{Round: round, Kind: "judge", Text: rep.judged[nj]})
+		}
+		rep.judged = nil
+	}
+
+	if err := au.processMoodChange(ctx, true, false, 0, "clear"); err != nil {
+		res.AuditErr = err.Error()
+	}
+	drain(-1)
+	for i, e := range events {
+		if res.AuditErr != "" {
+			break
+		}
+		var err error
+		switch e.Kind {
+		case "mood":
+			err = au.collectAndAuditMood(ctx, e.Ts, e.Mood)
+		case "sig":
+			ev := sigEvent{ts: e.Ts}
+			for _, v := range e.Values {
+				vn := varName{actorName: v.Actor, sigName: v.Sig}
+				var val interface{} = v.Str
+				typ := sigTypEvent
+				if v.IsNum {
+					val = v.Num
+					typ = sigTypScalar
+				}
+				ev.values = append(ev.values, auditableValue{typ: typ, varName: vn, val: val})
+			}
+			err = au.checkEvent(ctx, false, ev)
+		case "final":
+			// make `elapsed` land at e.Ts (plus the few microseconds the call takes)
+			rep.start = time.Now().Add(-time.Duration(e.Ts * float64(time.Second)))
+			err = au.checkFinal(ctx)
+		}
+		if err != nil {
+			res.AuditErr = err.Error()
+		}
+		drain(i)
+	}
+	of.CloseAll()
+	res.Vals = make(map[string]string)
+	for k, v := range au.st.curVals {
+		res.Vals[k] = fmt.Sprintf("%v", v)
+	}
+	if verr := col.checkAuditViolations(ctx); verr != nil {
+		res.Verdict = verr.Error()
+	}
+	res.GoodCounts = col.st.goodCounts
+	res.BadCounts = col.st.badCounts
+	res.Errors = len(col.st.errors)
+	res.HasData = make(map[string]bool)
+	for _, n := range cfg.audienceNames {
+		res.HasData[n] = cfg.audience[n].auditor.hasData
+	}
+	if writeCSV {
+		res.CSV = make(map[string]string)
+		files, _ := ioutil.ReadDir(filepath.Join(tmp, "csv"))
+		for _, f := range files {
+			b, _ := ioutil.ReadFile(filepath.Join(tmp, "csv", f.Name()))
+			res.CSV[f.Name()] = string(b)
+		}
+	}
+	return res
+}
